@@ -1,6 +1,7 @@
 package main
 
 import (
+	"sort"
 	"encoding/json"
 	"fmt"
 	"os"
@@ -28,6 +29,7 @@ func main() {
 			h = modPath + "/" + h
 		}
 		r := &Run{Env: env, Harness: h, Params: map[string]int{}}
+		autoStates := 0
 		for _, a := range os.Args[3:] {
 			kv := strings.SplitN(a, "=", 2)
 			switch kv[0] {
@@ -35,6 +37,8 @@ func main() {
 				r.Workers, _ = strconv.Atoi(kv[1])
 			case "maxpaths":
 				r.MaxPaths, _ = strconv.Atoi(kv[1])
+			case "auto":
+				autoStates, _ = strconv.Atoi(kv[1])
 			case "nomerge":
 				r.MergeOff = true
 			case "maporder":
@@ -49,10 +53,24 @@ func main() {
 				r.Params[kv[0]] = n
 			}
 		}
-		r.Explore()
+		if autoStates > 0 {
+			r = exploreAutomaton(r, autoStates)
+		} else {
+			r.Explore()
+		}
 		fmt.Println(r.Summary())
 		for k, n := range r.Reached {
 			fmt.Printf("  reach %s: %d\n", k, n)
+		}
+		if os.Getenv("GOSYM_KEYS") != "" {
+			var ks []string
+			for k := range r.Keys {
+				ks = append(ks, k)
+			}
+			sort.Strings(ks)
+			for _, k := range ks {
+				fmt.Printf("  key %s\n", k)
+			}
 		}
 		for k, n := range r.Inconcl {
 			fmt.Printf("  INCONCLUSIVE %s: %d\n", k, n)
